@@ -627,6 +627,17 @@ pub fn run(args: &Args, out: &mut Out) {
             op_dial(out, true, &names[..1], input);
             op_dial(out, true, &names, input);
         }
+        // frames of exactly MAX_FRAME_SIZE (16383) and MAX_FRAME_SIZE + 1 bytes, sent and received
+        for l in [16382usize, 16383] {
+            let long: Vec<u8> = std::iter::once(b'/').chain(std::iter::repeat(b'q').take(l - 1)).collect();
+            let mut line = long.clone();
+            line.push(b'\n');
+            let mut input = frame(b"/multistream/1.0.0\n");
+            input.extend(frame(&line));
+            op_listen(out, &[long.clone()], &input);
+            op_dial(out, false, &[long.clone()], &input);
+            op_dial(out, true, &[long.clone()], &input);
+        }
         out.end();
         idx += 1;
     }
